@@ -3,5 +3,7 @@
 package main
 
 // the conformance of the copy-on-write model needs fox.VerifDump* (verif build)
-func runCow(r *Run)          {}
-func cowNegativeRuns(r *Run) {}
+func runCow(r *Run)            {}
+func cowNegativeRuns(r *Run)   {}
+func runRoots(r *Run)          {}
+func rootsNegativeRuns(r *Run) {}
